@@ -53,7 +53,7 @@ func (d *Describer) mode() int {
 }
 
 func NewDescriber(p *Prog) *Describer {
-	return &Describer{p: p, memo: map[memoKey]string{}, busy: map[ssa.Value]bool{}, allocIdx: map[*ssa.Alloc]int{}, maxDepth: 12}
+	return &Describer{p: p, memo: map[memoKey]string{}, busy: map[ssa.Value]bool{}, allocIdx: map[*ssa.Alloc]int{}, maxDepth: 64}
 }
 
 func (d *Describer) D(v ssa.Value) string { return d.desc(v, 0) }
@@ -521,8 +521,10 @@ func (d *Describer) callDesc(c *ssa.CallCommon, depth int) string {
 		d.full = false
 		return name + "(~" + fp4(fullText) + ")"
 	}
-	d.inCall++
-	defer func() { d.inCall-- }()
+	if name != "len" && name != "cap" { // len(X) renders X exactly as D(X) does
+		d.inCall++
+		defer func() { d.inCall-- }()
+	}
 	var args []string
 	if c.IsInvoke() {
 		args = append(args, d.desc(c.Value, depth+1))
